@@ -953,3 +953,25 @@ package pipeline
 //@   requires !held(s.blockedMu)
 //@   assume at "lastIndex := len(s.blocked) - 1" stream.blockIndex >= -1 && (stream.blockIndex >= 0 ==> stream.blockIndex < len(s.blocked) && s.blocked[stream.blockIndex] == stream)
 //@   ensures !held(s.blockedMu) && stream.blockIndex == -1
+
+// ---------------------------------------------------------------------------
+// C05, standard pool: the ring holds exactly `capacity` events (what "at most
+// capacity events in flight" rests on for this pool: get hands out ring slots only),
+// and both counters address it modulo capacity.
+
+//@ func newEventPool
+//@   requires capacity >= 0
+//@   ensures result != nil && result.capacity == capacity
+//@   ensures len(result.events) == capacity && len(result.free1) == capacity && len(result.free2) == capacity
+//@   loop 1 invariant 0 <= i && i <= capacity && eventPool != nil && eventPool.capacity == capacity
+//@   loop 1 invariant len(eventPool.events) == i && len(eventPool.free1) == i && len(eventPool.free2) == i
+//@   callee NewInt64(v) (r)
+//@     pure
+//@     ensures r != nil
+//@   callee NewBool(v) (r)
+//@     pure
+//@     ensures r != nil
+//@   callee NewCond(l) (r)
+//@     pure
+//@   callee newEvent() (e)
+//@     pure
